@@ -14,7 +14,7 @@ class ModelError(Exception):
 
 
 class Inode:
-    __slots__ = ('id', 'kind', 'data', 'durable', 'pend', 'target')
+    __slots__ = ('id', 'kind', 'data', 'durable', 'pend', 'target', 'poisoned')
 
     def __init__(self, id, kind, data=b''):
         self.id, self.kind = id, kind
@@ -22,6 +22,7 @@ class Inode:
         self.durable = bytes(data)   # content as of the last fsync (b'' if never)
         self.pend = []               # list of ('w', off, bytes) | ('t', size) since the last fsync
         self.target = None
+        self.poisoned = False        # an fsync of this file has failed: later fsyncs prove nothing
 
 
 class DirOp:
@@ -298,7 +299,14 @@ class FS:
         if fd is None:
             return False, None, []
         paths = [fd['path']] if fd.get('path') else []
-        if c.ret != 0 or fd.get('ino') is None:
+        if fd.get('ino') is None:
+            return False, None, paths
+        if c.ret != 0:
+            # a failed fsync: the kernel reports the write-back error once and marks the pages clean, so a
+            # later fsync of the same file succeeds WITHOUT the data being on disk - what was written so
+            # far can never be relied on any more
+            if self.inodes[fd['ino']].kind != 'd':
+                self.inodes[fd['ino']].poisoned = True
             return False, None, paths
         node = self.inodes[fd['ino']]
         if node.kind == 'd':
@@ -315,6 +323,8 @@ class FS:
                     keep.append(op)
             self.pending = keep
             return True, 'fsync dir %s' % d, paths
+        if getattr(node, 'poisoned', False):
+            return True, 'fsync file %s (after an earlier failed fsync: proves nothing)' % fd['path'], paths
         node.durable = bytes(node.data)
         node.pend = []
         return True, 'fsync file %s' % fd['path'], paths
